@@ -83,6 +83,7 @@ BODIES = {
     'D': [   # derived attribute A.D: expression assigned to self.D
         ('D1', B('*', SF('N'), I(2))),
         ('D2', F_('f', n=SF('N'))),
+        ('D3', 'count-all'),      # select many as_ from instances of A; self.D = cardinality as_ + self.N;
     ],
     'b': [   # EE::b(p: integer)
         ('B1', [RET(B('+', P('p'), I(1)))]),
@@ -90,10 +91,19 @@ BODIES = {
         ('B3', [ASG(V('x'), P('p')), RET(('ncall', 'A', 'cop', [('k', V('x'))]))]),
     ],
 }
+B2_BODY = [RET(B('+', P('p'), I(100)))]          # EE2::b
+FB_BODY = [RET(B('+', P('p'), I(1000)))]         # ::b
 PARAMS = {'f': [('n', 'integer')], 'g': [('n', 'integer'), ('m', 'integer')], 'h': [('b', 'boolean'), ('n', 'integer')],
           'op': [('k', 'integer')], 'cop': [('k', 'integer')], 'b': [('p', 'integer')]}
 ENUM = ['Red', 'Green', 'Blue']
 SLOTS = ['f', 'g', 'h', 'op', 'cop', 'D', 'b']
+
+
+def derived_statements(name, derived, as_return=False):
+    if derived == 'count-all':
+        e = B('+', ('un', 'cardinality', V('as_')), SF('N'))
+        return [('selfrom', 'many', 'as_', 'A', None, True), RET(e) if as_return else ASG(SF(name), e)]
+    return [RET(derived) if as_return else ASG(SF(name), derived)]
 
 
 def body_text(stmts):
@@ -119,7 +129,7 @@ def systems(tier):
     for s, n in zip(SLOTS, sizes):
         for i in range(n):
             add(dict(base, **{s: i}))
-    sub = dict(f=[1, 2, 7], g=[0, 2], h=[0, 1], op=[2, 3], cop=[1], D=[0, 1], b=[1, 2])
+    sub = dict(f=[1, 2, 7], g=[0, 2], h=[0, 1], op=[2, 3], cop=[1], D=[0, 2], b=[1, 2])
     for combo in itertools.product(*[sub[s] for s in SLOTS]):
         add(dict(zip(SLOTS, combo)))
     return out
@@ -166,7 +176,7 @@ def build_bp_model(system):
         if derived is None:
             relate(m.new('O_NBATTR'), o_battr, 107)
         else:
-            text = body_text([ASG(SF(name), derived)])
+            text = body_text(derived_statements(name, derived))
             relate(m.new('O_DBATTR', Action_Semantics_internal=text, Suc_Pars=1), o_battr, 107)
         if prev is not None:
             relate(o_attr, prev, 103, 'succeeds')
@@ -217,6 +227,19 @@ def build_bp_model(system):
     s_bparm = m.new('S_BPARM', Name='p')
     relate(s_bparm, s_brg, 21)
     relate(s_bparm, dt('integer'), 22)
+    # same-named callables elsewhere: a bridge b in a second external entity and a function b
+    s_ee2 = pe(m.new('S_EE', Name='EE2', Key_Lett='EE2'))
+    s_brg2 = m.new('S_BRG', Name='b', Suc_Pars=1, Action_Semantics_internal=body_text(B2_BODY))
+    relate(s_brg2, s_ee2, 19)
+    relate(s_brg2, dt('integer'), 20)
+    s_bparm2 = m.new('S_BPARM', Name='p')
+    relate(s_bparm2, s_brg2, 21)
+    relate(s_bparm2, dt('integer'), 22)
+    fb = pe(m.new('S_SYNC', Name='b', Suc_Pars=1, Action_Semantics_internal=body_text(FB_BODY)))
+    relate(fb, dt('integer'), 25)
+    fbp = m.new('S_SPARM', Name='p')
+    relate(fbp, fb, 24)
+    relate(fbp, dt('integer'), 26)
     # enumeration Color chained by R56
     s_dt = pe(m.new('S_DT', Name='Color'))
     s_edt = m.new('S_EDT')
@@ -249,8 +272,10 @@ def reference_callables(system):
     functions = dict((s, E.Callable(s, PARAMS[s], BODIES[s][system[s]][1])) for s in ('f', 'g', 'h'))
     operations = {('A', 'op'): E.Callable('op', PARAMS['op'], BODIES['op'][system['op']][1], kind='operation', owner='A'),
                   ('A', 'cop'): E.Callable('cop', PARAMS['cop'], BODIES['cop'][system['cop']][1], kind='class_operation', owner='A')}
-    bridges = {('EE', 'b'): E.Callable('b', PARAMS['b'], BODIES['b'][system['b']][1], kind='bridge')}
-    derived = {('A', 'D'): E.Callable('D', [], [RET(BODIES['D'][system['D']][1])], kind='derived', owner='A')}
+    bridges = {('EE', 'b'): E.Callable('b', PARAMS['b'], BODIES['b'][system['b']][1], kind='bridge'),
+               ('EE2', 'b'): E.Callable('b', PARAMS['b'], B2_BODY, kind='bridge')}
+    functions['b'] = E.Callable('b', PARAMS['b'], FB_BODY)
+    derived = {('A', 'D'): E.Callable('D', [], derived_statements('D', BODIES['D'][system['D']][1], as_return=True), kind='derived', owner='A')}
     return dict(functions=functions, operations=operations, bridges=bridges, derived=derived,
                 enums={'Color': list(ENUM)}, constants={'TEN': 10, 'GREETING': 'hello', 'YES': True, 'HALF': 0.5})
 
@@ -274,6 +299,9 @@ def entries():
     out.append(('py:op(2) on second', [2, 1], 'pyop', (1, dict(k=2))))
     out.append(('py:D read, write N, read again', [2, 0], 'pyderived', 0))
     out.append(('py:enumerators and constants', [], 'pysymbols', None))
+    out.append(('py:D read, other instance created, read again', [2, 0], 'pyderived_other', 0))
+    for order in ((0, 1, 2), (2, 1, 0), (1, 2, 0)):
+        out.append(('py:same-named callables %s' % (order,), [], 'pysamename', order))
     # OAL callers: caller variables must survive the call; calls in expressions, by-name in permuted order
     callers = [
         ('oal:call in expression', [ASG(V('x'), I(5)), ASG(V('y'), F_('f', n=I(2))), ASG(V('i'), I(3)), ASG(V('t'), I(4)),
@@ -286,6 +314,15 @@ def entries():
         ('oal:bridge', [ASG(V('p'), I(50)), RET(B('+', ('ncall', 'EE', 'b', [('p', I(2))]), V('p')))]),
         ('oal:derived', [('selfrom', 'any', 'a', 'A', None, True), ASG(V('d1'), ('field', V('a'), 'D')),
                          ASG(('field', V('a'), 'N'), I(3)), RET(B('+', B('*', V('d1'), I(100)), ('field', V('a'), 'D')))]),
+        ('oal:same-named callables', [RET(B('+', B('+', ('ncall', 'EE2', 'b', [('p', I(1))]), ('fcall', 'b', [('p', I(1))])),
+                                           B('*', ('ncall', 'EE', 'b', [('p', I(1))]), I(10000))))]),
+        ('oal:same-named callables 2', [ASG(V('x'), ('fcall', 'b', [('p', I(2))])), ASG(V('y'), ('ncall', 'EE', 'b', [('p', I(2))])),
+                                         ASG(V('z'), ('ncall', 'EE2', 'b', [('p', I(2))])),
+                                         RET(B('+', B('+', V('x'), B('*', V('y'), I(10000))), V('z')))]),
+        ('oal:derived, other instance created', [('selfrom', 'any', 'a', 'A', None, True), ASG(V('d1'), ('field', V('a'), 'D')),
+                                                 ('create', 'n', 'A'), ASG(V('d2'), ('field', V('a'), 'D')),
+                                                 ASG(('field', V('n'), 'N'), I(7)), ASG(V('d3'), ('field', V('a'), 'D')),
+                                                 RET(B('+', B('+', B('*', V('d1'), I(10000)), B('*', V('d2'), I(100))), V('d3')))]),
         ('oal:enumerators', [RET(B('+', B('+', B('*', ('enum', 'Color', 'Red'), I(100)), B('*', ('enum', 'Color', 'Green'), I(10))),
                                    ('enum', 'Color', 'Blue')))]),
         ('oal:call in where', [('selfrom', 'many', 'as_', 'A', B('<', ('field', ('selected',), 'N'), F_('f', n=I(0))), True),
@@ -335,6 +372,21 @@ def run_reference(system, entry):
         d2 = ev.read_attr(h, 'D')
         d3 = ev.read_attr(h, 'D')
         value = [d1, d2, d3]
+    elif kind == 'pyderived_other':
+        h = E.Handle('A', ref.order['A'][payload])
+        d1 = ev.read_attr(h, 'D')
+        n = ref.new('A', dict(N=7))
+        d2 = ev.read_attr(h, 'D')
+        ref.insts[ref.order['A'][1]].values['N'] = 4
+        d3 = ev.read_attr(h, 'D')
+        value = [d1, d2, d3]
+    elif kind == 'pysamename':
+        calls = [lambda: ev.run(ev.functions['b'].body, dict(p=1)), lambda: ev.run(ev.bridges[('EE', 'b')].body, dict(p=1)),
+                 lambda: ev.run(ev.bridges[('EE2', 'b')].body, dict(p=1))]
+        res = {}
+        for i in payload:
+            res[i] = calls[i]()
+        value = [res[0], res[1], res[2]]
     elif kind == 'pysymbols':
         value = [0, 1, 2, 10, 'hello', True, 0.5]
     elif kind == 'oal':
@@ -376,6 +428,19 @@ def run_real(bp_model, system, entry):
             d1 = a.D
             a.N = 5
             value = [d1, a.D, a.D]
+        elif kind == 'pyderived_other':
+            a = insts[payload]
+            d1 = a.D
+            dom.new('A', N=7)
+            d2 = a.D
+            insts[1].N = 4
+            value = [d1, d2, a.D]
+        elif kind == 'pysamename':
+            calls = [lambda: dom.find_symbol('b')(p=1), lambda: dom.find_symbol('EE').b(p=1), lambda: dom.find_symbol('EE2').b(p=1)]
+            res = {}
+            for i in payload:
+                res[i] = calls[i]()
+            value = [res[0], res[1], res[2]]
         elif kind == 'pysymbols':
             c = dom.find_symbol('Color')
             value = [c.Red, c.Green, c.Blue, dom.find_symbol('TEN'), dom.find_symbol('GREETING'), dom.find_symbol('YES'),
